@@ -77,6 +77,29 @@ def north_knife_edge(rng, lat, naive):
     return []
 
 
+def sublunar(rng, naive):
+    """an observer with the moon (almost exactly) at the zenith — or, at the antipode, the nadir —
+    for the instant: walk along the moon's azimuth by the zenith distance, three times"""
+    import math
+    lat, lon = rng.uniform(-30, 30), rng.uniform(-180, 180)
+    for _ in range(4):
+        st, el = call(moon.elevation, Observer(lat, lon), naive)
+        st2, az = call(moon.azimuth, Observer(lat, lon), naive)
+        if st != "ok" or st2 != "ok":
+            return None
+        dist = math.radians(90.0 - el)
+        b = math.radians(az)
+        p1 = math.radians(lat)
+        s2 = math.sin(p1) * math.cos(dist) + math.cos(p1) * math.sin(dist) * math.cos(b)
+        p2 = math.asin(max(-1.0, min(1.0, s2)))
+        l2 = math.radians(lon) + math.atan2(math.sin(b) * math.sin(dist) * math.cos(p1),
+                                            math.cos(dist) - math.sin(p1) * math.sin(p2))
+        lat, lon = math.degrees(p2), (math.degrees(l2) + 180.0) % 360.0 - 180.0
+    if rng.random() < 0.5:
+        lat, lon = -lat, (lon + 360.0) % 360.0 - 180.0          # the antipode: moon at the nadir
+    return lat, lon
+
+
 def gen_angles(rng, n, tier="quick"):
     """moon azimuth / elevation / zenith; every instant in several spellings one after the
     other (naive UTC, aware UTC, zones, the other fold of an ambiguous wall time)"""
@@ -104,6 +127,22 @@ def gen_angles(rng, n, tier="quick"):
             zamb, n_ = zones.ambiguous_instant(rng)
             if zamb is not None:
                 naive = n_
+        if rng.random() < 0.3:
+            naive = naive.replace(microsecond=rng.choice([1, 250000, 500000, 999999, rng.randint(0, 999999)]))
+        if rng.random() < 0.04:
+            sl = sublunar(rng, naive)
+            if sl is not None:
+                lat, lon = sl
+                for dl in (0.0, 1e-9, -1e-9, 1e-7):
+                    for name in ("elevation", "zenith", "azimuth"):
+                        st, v = call(getattr(moon, name), Observer(lat + dl, lon), naive)
+                        i += 1
+                        yield Case("moon." + name, "moon_%s %s %s %s" % (name, F(lat + dl), F(lon),
+                                                                       I(wall_us(naive))),
+                                   FS(v) if st == "ok" else E(v),
+                                   {"latitude": lat + dl, "longitude": lon, "datetime": naive.isoformat(),
+                                    "zone": "naive"}, ("sub-lunar",))
+                continue
         reused = False
         if rng.random() < 0.35:
             if zamb is None and prev is not None and rng.random() < 0.6:
